@@ -98,7 +98,7 @@ func (self AnalyzedFloatLiteralExpression) Kind() ExpressionKind {
 func (self AnalyzedFloatLiteralExpression) Span() errors.Span { return self.Range }
 func (self AnalyzedFloatLiteralExpression) String() string {
 	// If the float can be replresented as an int without loss, the 'f' extension is forced.
-	if float64(int64(self.Value)) == self.Value {
+	if float64(int64(self.Value)) == self.Value && self.Value < 1e15 && self.Value > -1e15 {
 		return fmt.Sprintf("%df", int64(self.Value))
 	}
 
